@@ -189,6 +189,12 @@ def betaRegI (x a b : Rat) : Option I := betaRegIWith (lbetaI a b) x a b
 x^a e^{−x}/Γ(a+1) · Σ_{n≥0} x^n/((a+1)…(a+n)) -/
 def gammaRegIWith (lg : I) (a x : Rat) : Option I :=
   if x ≤ 0 then some (I.ofRat 0) else
+  -- far upper tail: Γ(a,x) (1 − (a−1)/x) ≤ x^(a−1) e^(−x) (one integration by parts), so for x ≥ 2a
+  -- Q(a,x) ≤ 2 x^(a−1) e^(−x) / Γ(a), with log Γ(a) = log Γ(a+1) − log a
+  if x > 2 * a + 100 then
+    let e := I.sub (I.sub (I.scale (a - 1) (I.logQ x)) (I.ofRat x)) (I.sub lg (I.logQ a))
+    let bound := 2 * (I.exp ⟨e.hi, e.hi⟩).hi
+    some ⟨ratMax 0 (1 - bound), 1⟩ else
   let one : Nat := I.scaleN
   -- terms grow while x > a+n; stop when the term is ≤ 1 unit and the ratio ≤ 1/2
   -- integer form: q_n = x / (a + n + 1) = xN aD / ((aN + (n+1) aD) xD)
